@@ -403,13 +403,19 @@ def ref_subdiff(fd, data, space, dY, z, delta=0.0):
         g = lam * np.where(np.abs(z) <= gam, z / gam, np.sign(z))
         return SetDesc(g, g, lip=lam / gam)
     if kind == 'kl':
+        # gradient lam (1 - p / z) is increasing in z > 0: the enlarged set
+        # is the interval between its values at z - delta and z + delta
+        # (unbounded below where the ball touches z <= 0)
         p = data['prior']
         if np.any(z + delta <= 0):
             return SetDesc(np.zeros(n), np.zeros(n), feasible=False)
-        zs = np.maximum(z, 1e-300)
-        g = lam * (1.0 - p / zs)
-        lip = lam * float(np.max(p / np.maximum(z - delta, 1e-150) ** 2))
-        return SetDesc(g, g, lip=lip)
+        zl = z - delta
+        lo = np.where(zl > 0, lam * (1.0 - p / np.where(zl > 0, zl, 1.0)),
+                      -np.inf)
+        hi = lam * (1.0 - p / (z + delta))
+        lip = 0.0 if delta > 0 else lam * float(np.max(
+            p / np.maximum(z, 1e-150) ** 2))
+        return SetDesc(lo, hi, lip=lip)
     if kind == 'indzero':
         feas = bool(np.all(np.abs(z - data['b']) <= delta))
         return SetDesc(np.full(n, -np.inf), np.full(n, np.inf),
